@@ -191,7 +191,7 @@ HandlerOK(k, s, c, n) ==
             [] r.auth = "signerc" -> n = Gov /\ c = Gov
      ELSE /\ c \in Users                        \* only A and B are validators / own objects in the world
           /\ (r.self => n = c)
-          /\ (r.carrier => n \in Users)
+          /\ (r.carrier \/ r.target = "object" => n \in Users)   \* Gov is no validator and owns no object
 
 \* whose attributed state a successful message writes
 Writers(k, s, c, n) ==
